@@ -91,8 +91,17 @@ def child_record_rules(ctx, rule_id):
         'root_url': 'self.url_record.root_url or self.url_record.url',
     }
     got = {}
-    for fname, target, else_const in (('add_child_url', 'url_properties', 'None'), ('child_url_record', 'url_record', '0')):
+    for fname, ctor, else_const in (('add_child_url', 'URLProperties', 'None'), ('child_url_record', 'URLRecord', '0')):
         fi = repo.func(SES + '.' + fname)
+        # the record being filled is the local constructed from URLProperties() / URLRecord()
+        target = None
+        for name, ds in U.local_defs(fi.node).items():
+            if any(v is not None and isinstance(v, ast.Call) and dotted(v.func) == ctor for v, k, st in ds):
+                target = name
+        if target is None:
+            ck.bad(rule_id, fi.qual, '%s() record' % ctor, '%s no longer builds a %s record' % (fname, ctor), fi.loc())
+            got[fname] = {}
+            continue
         vals = {}
         for n in walk_no_nested(fi.node):
             if isinstance(n, ast.Assign) and len(n.targets) == 1 and isinstance(n.targets[0], ast.Attribute) \
@@ -126,7 +135,10 @@ def child_record_rules(ctx, rule_id):
                       % (attr, norm_text(a[attr][0].value), norm_text(b[attr][0].value)), 'wpull/pipeline/session.py')
     # the values reach the table: url_properties is what add_url receives
     fi = repo.func(SES + '.add_child_url')
-    okp = any(norm_text(c).startswith('self.add_url(%s, url_properties' % fi.params[1]) for c in U.calls(fi.node))
+    bnd = {}
+    okp = any(U.like(c, 'self.add_url(%s, L_props, L_data)' % fi.params[1], bnd) for c in U.calls(fi.node)) and any(
+        v is not None and isinstance(v, ast.Call) and dotted(v.func) == 'URLProperties'
+        for v, k, st in U.local_defs(fi.node).get(bnd.get('L_props', ''), []))
     ck.expect(okp, rule_id, fi.qual, 'add_url(url, url_properties, ...)', 'the computed properties are not the ones stored', fi.loc())
     up = repo.cls('wpull.pipeline.item:URLProperties')
     attrs = None
